@@ -65,6 +65,19 @@ def points(tier: str) -> List[Dict[str, Any]]:
                         missing = [k for k in KINDS if st[k] == "absent"]
                         pts.append({"cache": st, "timeout": 3000, "arrive": {k: arr for k in missing}, "forced": forced,
                                     "extra": False, "prior": {"timeout": prior_timeout, "gap": gap}})
+    # a superseded copy next to the current one: the cache holds a fresh record and, learnt *after* it, another record of the
+    # same name and type with other rdata that has run out but is not purged yet (what a changed-and-changed-back TXT or SRV
+    # leaves behind for up to ten seconds)
+    for k in KINDS:
+        for others in ("fresh", "absent-arrive", "absent-never"):
+            for timeout in (300, 3000):
+                st = {x: ("fresh" if others == "fresh" else "absent") for x in KINDS}
+                st[k] = "fresh+exp"
+                if others != "fresh" and k in ("a", "aaaa"):
+                    st["srv"] = "fresh"  # an address is only useful with its SRV record
+                missing = [x for x in KINDS if st[x] == "absent"]
+                pts.append({"cache": st, "timeout": timeout, "arrive": {x: (50 if others == "absent-arrive" else "never")
+                                                                         for x in missing}, "forced": None, "extra": False})
     # a lookup object that is used again after the service moved to another host
     for b_state in ("absent", "fresh", "expired"):
         for b_arrives in ("never", 50, 250):
@@ -110,6 +123,15 @@ def run_point(p: Dict[str, Any], verbose: bool = False) -> Tuple[Optional[Dict[s
         for k in KINDS:
             s = st[k]
             if s == "absent":
+                continue
+            if s == "fresh+exp":
+                n += 2
+                good = GOOD[k]
+                stale_copy = OLD[k][:2] + (1,) + OLD[k][3:]  # no cache-flush bit: it must not push the good copy out
+                w.loop.call_at((t0 - 0.25 * good[3] * 1000) / 1000, w.net.inject, host, wire.encode(n, 0x8400, (), [good]),
+                               ("10.0.0.50", 5353))
+                w.loop.call_at((t0 - 11_000) / 1000, w.net.inject, host, wire.encode(n + 1, 0x8400, (), [stale_copy]),
+                               ("10.0.0.50", 5353))
                 continue
             rec = OLD[k] if s == "expired" else GOOD[k]
             ttl = rec[3]
@@ -159,7 +181,7 @@ def run_point(p: Dict[str, Any], verbose: bool = False) -> Tuple[Optional[Dict[s
                 problems.append(f"bounded: returned {t_ret:.1f} ms after the call, timeout {timeout} ms")
         # ---- when did the lookup know SRV and an address?
         def avail(k: str) -> Optional[float]:
-            if st[k] in ("fresh", "stale"):
+            if st[k] in ("fresh", "stale", "fresh+exp"):
                 return 0.0
             off = arrive.get(k, "never")
             return None if off == "never" else float(off)
@@ -209,7 +231,7 @@ def run_point(p: Dict[str, Any], verbose: bool = False) -> Tuple[Optional[Dict[s
                 problems.append(f"provenance: addresses {sorted(got_addrs)} are not all unexpired address records of the "
                                 f"host {sorted(good_addrs)}")
             if known == 0.0 and t_ret is not None and t_ret <= 0.01:
-                cached_now = {GOOD[k][4] for k in ("a", "aaaa") if st[k] in ("fresh", "stale")}
+                cached_now = {GOOD[k][4] for k in ("a", "aaaa") if st[k] in ("fresh", "stale", "fresh+exp")}
                 if p["extra"] and st["a"] in ("fresh", "stale"):
                     cached_now.add(A_EXTRA[4])
                 if got_addrs != cached_now:
@@ -233,8 +255,8 @@ def run_point(p: Dict[str, Any], verbose: bool = False) -> Tuple[Optional[Dict[s
                                         f"QU={bool(q[3] & 0x8000)}, expected {want_qu}")
                 if t_ret is not None and d.t_ms - t0 > t_ret + 0.001:
                     problems.append(f"queries: query sent at +{d.t_ms - t0:.0f} ms, after the lookup returned (+{t_ret:.0f})")
-                fresh_srv = st["srv"] == "fresh"
-                fresh_txt = st["txt"] == "fresh"
+                fresh_srv = st["srv"] in ("fresh", "fresh+exp")
+                fresh_txt = st["txt"] in ("fresh", "fresh+exp")
                 asked = {(q[1].lower(), q[2]) for q in d.msg.questions}
                 if first:
                     if fresh_srv and (NAME, 33) in asked:
